@@ -128,6 +128,30 @@ pub struct Req {
     pub cqes: u32,
     /// Bytes accepted by write-like completions (in order).
     pub accepted: Vec<u8>,
+    /// One record per completion produced for this request.
+    pub outs: Vec<OutRec>,
+}
+
+/// What the kernel did for one completion of a request.
+#[derive(Clone, Debug, Default)]
+pub struct OutRec {
+    pub res: i32,
+    pub flags: u32,
+    /// Bytes written into the data ranges (reads) or descriptor numbers.
+    pub data: Vec<u8>,
+    /// Socket address written (raw sockaddr bytes).
+    pub addr: Vec<u8>,
+    /// CQE was suppressed (CQE_SKIP_SUCCESS).
+    pub skipped: bool,
+}
+
+/// A CQE written into a completion ring.
+#[derive(Clone, Copy, Debug)]
+pub struct Written {
+    pub ring: usize,
+    pub pos: u32,
+    pub cqe: Cqe,
+    pub serial: Option<u32>,
 }
 
 #[derive(Clone, Debug, PartialEq, Eq)]
@@ -181,7 +205,7 @@ pub struct RingState {
     sqes_len: usize,
     pub enabled: bool,
     pub submitter: Option<usize>,
-    pub overflow: VecDeque<Cqe>,
+    pub overflow: VecDeque<(Cqe, Option<u32>)>,
     pub deferred: VecDeque<Cqe>,
     pub fixed: Option<Vec<Option<u32>>>, // slot -> desc id
     pub fixed_hint: u32,
@@ -256,6 +280,11 @@ pub struct Simk {
     pub reqs: Vec<Req>,
     pub descs: Vec<Desc>,
     pub log: Vec<Event>,
+    /// Every CQE written into a ring, in order.
+    pub written: Vec<Written>,
+    /// Scratch for the completion being built.
+    pending_out: OutRec,
+    map_pos: usize,
     /// Integrity violations noticed by the kernel side: (signature class, message).
     pub violations: Vec<(String, String)>,
     pub next_serial: u32,
@@ -336,6 +365,9 @@ pub fn reset(plan: SetupPlan) {
             reqs: Vec::new(),
             descs: Vec::new(),
             log: Vec::new(),
+            written: Vec::new(),
+            pending_out: OutRec::default(),
+            map_pos: 0,
             violations: Vec::new(),
             next_serial: 1,
             next_fd: ISSUED_FD_BASE,
@@ -732,13 +764,22 @@ impl Simk {
 
     /// Record a `close(2)` on an issued descriptor seen by mapwatch.
     pub fn sync_closes(&mut self) {
-        for ev in mapwatch::events() {
+        let events = mapwatch::events();
+        for ev in events.iter().skip(self.map_pos) {
             if let mapwatch::MapEvent::CloseIssued { fd, res } = ev {
-                // Only account each event once: mark by removing from mapwatch
-                // is not possible here, so we count closes idempotently below.
-                let _ = (fd, res);
+                if let Some(d) = self.descs.iter_mut().find(|d| d.kind == DescKind::Regular(*fd)) {
+                    let id = d.id;
+                    if d.open {
+                        d.open = false;
+                        d.closes.push("close(2)");
+                    } else {
+                        d.closes.push("close(2)-again");
+                    }
+                    self.log.push(Event::Close { ring: usize::MAX, desc: Some(id), fd: *fd, fixed: false, res: *res, via: "close(2)" });
+                }
             }
         }
+        self.map_pos = events.len();
     }
 
     // ---------------------------------------------------------------- enter
@@ -796,8 +837,9 @@ impl Simk {
             if r.cq_ready() >= r.cq_entries {
                 break;
             }
-            let cqe = r.overflow.pop_front().unwrap();
-            Self::write_cqe(r, cqe);
+            let (cqe, serial) = r.overflow.pop_front().unwrap();
+            let pos = Self::write_cqe(r, cqe);
+            self.written.push(Written { ring, pos, cqe, serial });
         }
     }
 
@@ -807,10 +849,11 @@ impl Simk {
         }
     }
 
-    fn write_cqe(r: &mut RingState, cqe: Cqe) {
+    fn write_cqe(r: &mut RingState, cqe: Cqe) -> u32 {
         let tail = r.cq_tail();
         unsafe { std::ptr::write_volatile(r.cqe_slot(tail), cqe) };
         r.cq_word(CQ_TAIL).store(tail.wrapping_add(1), Ordering::SeqCst);
+        tail
     }
 
     fn post_now(&mut self, ring: usize, cqe: Cqe, serial: Option<u32>) {
@@ -818,10 +861,11 @@ impl Simk {
         r.posted += 1;
         let full = r.cq_ready() >= r.cq_entries || !r.overflow.is_empty();
         if full {
-            r.overflow.push_back(cqe);
+            r.overflow.push_back((cqe, serial));
             r.set_sq_flag(SQ_CQ_OVERFLOW, true);
         } else {
-            Self::write_cqe(r, cqe);
+            let pos = Self::write_cqe(r, cqe);
+            self.written.push(Written { ring, pos, cqe, serial });
         }
         self.log.push(Event::Posted { ring, cqe, serial, overflowed: full });
     }
@@ -1017,6 +1061,7 @@ impl Simk {
             done: false,
             cqes: 0,
             accepted: Vec::new(),
+            outs: Vec::new(),
         };
         self.reqs.push(req);
         if self.unsupported.contains(&op) {
@@ -1060,6 +1105,9 @@ impl Simk {
 
     /// Post a CQE for request `serial`; `flags & F_MORE == 0` finishes it.
     fn finish(&mut self, serial: u32, res: i32, flags: u32) {
+        let mut out = std::mem::take(&mut self.pending_out);
+        out.res = res;
+        out.flags = flags;
         let (ring, user_data, skip) = {
             let r = self.req_mut(serial);
             r.cqes += 1;
@@ -1068,6 +1116,8 @@ impl Simk {
             }
             (r.ring, r.user_data, r.sqe.flags() & SQE_CQE_SKIP_SUCCESS != 0)
         };
+        out.skipped = skip && res >= 0;
+        self.req_mut(serial).outs.push(out);
         if skip && res >= 0 {
             self.log.push(Event::Skipped { ring, serial, res });
             return;
@@ -1211,7 +1261,9 @@ impl Simk {
         for r in req.foot.iter().filter(|r| r.write && r.what == what) {
             let take = left.min(r.len);
             for j in 0..take {
-                unsafe { (r.addr as *mut u8).add(j).write_volatile(self.pattern(serial, i)) };
+                let b = self.pattern(serial, i);
+                unsafe { (r.addr as *mut u8).add(j).write_volatile(b) };
+                self.pending_out.data.push(b);
                 i += 1;
             }
             left -= take;
@@ -1281,7 +1333,9 @@ impl Simk {
                                 self.violation("pool-bad-buffer", format!("buffer ring entry bid={bid} addr={addr:#x} len={len} is not writable memory"));
                             } else {
                                 for j in 0..n {
-                                    unsafe { (addr as *mut u8).add(j).write_volatile(self.pattern(serial.wrapping_add(req.cqes * 101), j)) };
+                                    let b = self.pattern(serial.wrapping_add(req.cqes * 101), j);
+                                    unsafe { (addr as *mut u8).add(j).write_volatile(b) };
+                                    self.pending_out.data.push(b);
                                 }
                             }
                             let flags = CQE_F_BUFFER | ((bid as u32) << CQE_BUFFER_SHIFT) | more_flag;
@@ -1312,6 +1366,7 @@ impl Simk {
                     let sa = sockaddr_in_bytes(serial);
                     unsafe { std::ptr::copy_nonoverlapping(sa.as_ptr(), m.name as *mut u8, 16) };
                     unsafe { ((hdr + 8) as *mut u32).write_unaligned(16) };
+                    self.pending_out.addr = sa.to_vec();
                 }
                 unsafe { ((hdr + 48) as *mut i32).write_unaligned(0) };
                 self.finish(serial, n as i32, more_flag);
@@ -1342,6 +1397,7 @@ impl Simk {
                     let n = alen.min(16);
                     unsafe { std::ptr::copy_nonoverlapping(sa.as_ptr(), sqe.addr() as *mut u8, n) };
                     unsafe { (lenp as *mut u32).write_unaligned(16) };
+                    self.pending_out.addr = sa[..n].to_vec();
                 }
                 self.finish(serial, res, if res >= 0 { more_flag } else { 0 });
             }
@@ -1365,6 +1421,7 @@ impl Simk {
                         match self.new_fixed(ring, serial) {
                             Ok((_, slot)) => {
                                 unsafe { ((arr + i * 4) as *mut i32).write_unaligned(slot as i32) };
+                                self.pending_out.data.extend_from_slice(&(slot as i32).to_ne_bytes());
                                 res += 1;
                             }
                             Err(e) => {
@@ -1401,6 +1458,8 @@ impl Simk {
                         (arr as *mut i32).write_unaligned(a);
                         ((arr + 4) as *mut i32).write_unaligned(b);
                     }
+                    self.pending_out.data.extend_from_slice(&a.to_ne_bytes());
+                    self.pending_out.data.extend_from_slice(&b.to_ne_bytes());
                     self.finish(serial, 0, 0);
                 }
             }
@@ -1436,6 +1495,7 @@ impl Simk {
                         let n = alen.min(16);
                         unsafe { std::ptr::copy_nonoverlapping(sa.as_ptr(), sqe.addr() as *mut u8, n) };
                         unsafe { (lenp as *mut u32).write_unaligned(16) };
+                        self.pending_out.addr = sa[..n].to_vec();
                         self.finish(serial, 0, 0);
                     }
                     _ => self.finish(serial, explicit.unwrap_or(0), 0),
